@@ -449,7 +449,7 @@ DEFS = '''#define A 1
 USES = ['A;', 'B;', 'F(2);', 'F(A);', 'F(B);', 'G(1, F(2));', 'G((1,2), 3);', 'G(F(1), G(2, 3));', 'S(a  +   b);', 'S(\n a \n b);', 'S( x\ny );', 'S("x\\"y" + \'c\');',
         'S(A);', 'S(F(1));', 'T(A, B);', 'T( p q ,r\ns);', 'V(1,2);', 'V((1,2),F(3));', 'W(1, 2, 3);', 'W(A,p\nq);', 'R;', 'R R;', 'P(1);', 'F\n(3);', 'F  (3);', 'N(4);', 'N;', 'F ;',
         'E() 5;', 'F(F(F(1)));', 'F(\n1\n);', 'G(1\n,\n2);', 'h w);', 'h 5);', 'm(t);', 'obj + A;', 'F(EMPTY) ;', 'F();', 'G(,);', 't(t(t(A)));', 'F(t)(5);', 'S(,);', 'S();',
-        'A B F(1) G(2,3) S(z);', 'F((A));', 'F(G(1,2));', 't((w));', 'S(p   "a  b"   q);', 'S(\'"\');']
+        'A B F(1) G(2,3) S(z);', 'F((A));', 'F(G(1,2));', 't((w));', 'S(p   "a  b"   q);', 'S(\'"\');', "S('\\n');", "S('\\\\' + L'\\0');", 'S("a\\\\b" \'\\\'\');']
 BAD = [('F(1;', 'EOF'), ('G(1);', 'not enough'), ('F(1,2);', 'too many'), ('E(1);', 'too many')]
 
 REDEF = [
@@ -459,6 +459,8 @@ REDEF = [
     ('#define X(a) a\n#define X(a) a\nX(1);', True), ('#define X(a) a\n#define X(b) b\n', False), ('#define X(a,b) a - b\n#define X(b,a) a - b\n', False),
     ('#define X(a) a\n#define X(a,b) a\n', False), ('#define X(a) #a\n#define X(a) a\n', False), ('#define X(...) __VA_ARGS__\n#define X(a) a\n', False),
     ('#define X(a) 1\n#define X(a) 1\n', True), ('#define X 1\n#undef X\n#define X 2\nX;', True), ('#define X(a) a\n#undef X\n#define X 3\nX;', True),
+    ('#define X 1\n(X);\n#define X 1\nX;', True), ('#define X 1\n-X;\n#define X 1\n(X);', True), ('#define SQ(a) a*a\n-SQ(3);\n#define SQ(a) a*a\n', True),
+    ('#define f(x)x\n#define f(x) x\nf(1);', True), ('#define g(x) x\n#define g(x)x\n', True),
     ('#define X(a) a + 1\n#define X(a) a+1\n', False), ('#define X(a) a  +  1\n#define X(a) a + 1\n', True), ('#define X (1)\n#define X(a) (1)\n', False),
 ]
 DIRECTIVES = [('#if 1\n', False), ('#ifdef A\n', False), ('#ifndef A\n', False), ('#elif 1\n', False), ('#else\n', False), ('#endif\n', False), ('#include "x.h"\n', False),
